@@ -220,6 +220,17 @@ class K:
             return
         cur().prove(name, L._b(cond), kind, scope=self.con.scope)
 
+    def lemma(self, name, cond):
+        """an intermediate fact: an obligation like any other clause, and available as a hypothesis to the
+        clauses that follow it (cut).  Native mode: checked like `ensures`."""
+        if self.mode == "native":
+            return self.ensures(name, cond)
+        self.n_ensures += 1
+        c = cur()
+        g = L._b(cond)
+        c.prove(name, g, "lemma", scope=self.con.scope)
+        c.assume(c._close(g) if hasattr(c, "_close") else g, tag="after:" + name)
+
     def fingerprint(self, name, term):
         """record the (simplified) term of a result that must not depend on the interpreter's hash seed; the
         runner compares the recorded texts between runs under different PYTHONHASHSEED values (C09)"""
